@@ -9,7 +9,8 @@
        forall F c o, cwf c -> let (c', r) := cstep F c o in astep F (abs_world c) o = (abs_world c', r)
    Proved: the same under the decidable guard `step_ok F c o` (Conc/CGuard.v), which fails exactly when a primitive
    update of the call (a) creates or assigns an empty text, (b) moves a node with an un-prefixed attribute into the
-   scope of a default namespace it is not shielded from, (c) binds a text over an occupied text slot.
+   scope of a default namespace it is not shielded from.  (A third class of the first round -- a text bound over an
+   occupied text slot, finding 29 -- is repaired in the code: the text is prepended to the chain.)
    The equality of whole worlds contains: the edited node lands where the plain edit puts it, every other node keeps
    parent, order, name, namespace, presented attributes and content, nothing is lost or duplicated.
 
@@ -22,13 +23,20 @@
    identities are preserved (the full `cwf`, not only its shape part).  Text: `C01_text_conserved` -- a call that neither
    assigns content nor merges (`run_structural`, computed along the run) leaves the multiset of (identity, content) of
    all text nodes, attached or parentless, as it was, plus the text nodes made from the offered strings.
-   Missing: `edit_ok` (the relation the property states, independent of the shared position scripts) with
-   `astep_sound`. *)
+   Independent specification: `edit_ok F w o w'` (Tree/AEdit.v) states each call as a *relation* on the flat view of the
+   plain tree -- for every node its payload and the identities of its children -- without the scripts that compute
+   positions: the offered node becomes a child of the stated parent with exactly the stated visible children before /
+   after it, that parent keeps its payload and the order of its other children, every other node keeps payload and
+   children (hence parent and order), parentless nodes and documents change only as stated.  `C01_astep_sound`: for
+   all eleven operation kinds, any number of offered nodes and any kind-based filter, a successful `astep` satisfies
+   `edit_ok` (under unique identities; the guard `setitem_guard` excludes exactly finding 18, which
+   `C01_setitem_childless_violates_edit_ok` states against the relation).  `C01_edit_ok` composes it with the
+   refinement: a successful call on the concrete text-chain model, seen through `abs_world`, satisfies `edit_ok`. *)
 From Coq Require Import List NArith ZArith Bool.
 From Delb.Base Require Import PyStr.
 From Delb.Tree Require Import ATree ITree AOps.
 From Coq Require Import Permutation.
-From Delb.Tree Require Import AGuard AOpsFacts.
+From Delb.Tree Require Import AGuard AOpsFacts AFlat AFlatFacts AEdit ASound.
 From Delb.Conc Require Import CTree COps CGuard CEncode Refine RefineIds Witness.
 Import ListNotations.
 
@@ -86,6 +94,28 @@ Example C01_example_ids_text :
   run_structural (script fall (OAddFollowing 3%N [SStr 20%N [120%N]; SNode 13%N; SStr 21%N [121%N]])) (abs_world w_big) = true.
 Proof. split; [exact sample_history_fresh|exact (proj1 sample_step_structural)]. Qed.
 
+(* the position scripts meet the relational specification of every editing call *)
+Theorem C01_astep_sound : forall F w o w',
+  ainv w -> roots_tag w -> target_exists w o -> run_fresh (script F o) w = true -> setitem_guard F w o ->
+  astep F w o = (w', ROk) -> edit_ok F w o w'.
+Proof. exact astep_sound. Qed.
+Print Assumptions C01_astep_sound.
+
+(* ... and so does the concrete model, through the refinement *)
+Theorem C01_edit_ok : forall F c o c',
+  cwf c -> step_ok F c o = true -> run_fresh (script F o) (abs_world c) = true ->
+  target_exists (abs_world c) o -> setitem_guard F (abs_world c) o ->
+  cstep F c o = (c', ROk) -> edit_ok F (abs_world c) o (abs_world c').
+Proof. exact step_edit_ok. Qed.
+Print Assumptions C01_edit_ok.
+
+(* finding 18, against the relation: `r[0] = "x"` on a node without visible children reports success and leaves the
+   world as it was, which edit_ok does not allow *)
+Theorem C01_setitem_childless_violates_edit_ok : forall F w p i f s,
+  filter (vis_id F w) (kids_of w p) = [] -> ~ edit_ok F w (OSetItem p i (SStr f s)) w.
+Proof. exact setitem_childless_violates. Qed.
+Print Assumptions C01_setitem_childless_violates_edit_ok.
+
 (* the guard is necessary: one witness per class *)
 Theorem C01_step_refuted_empty_content : exists c o,
   cwf c /\ step_ok fall c o = false /\ enc_world (fst (astep fall (abs_world c) o)) <> enc_world (abs_world (fst (cstep fall c o))).
@@ -107,10 +137,13 @@ Theorem C01_step_refuted_namespace : exists c o,
 Proof. exists w_dns, (OAppend 0%N [SNode 1%N]). exact refuted_namespace. Qed.
 Print Assumptions C01_step_refuted_namespace.
 
-Theorem C01_step_refuted_overwrite : exists F c o,
-  cwf c /\ step_ok F c o = false /\ enc_world (fst (astep F (abs_world c) o)) <> enc_world (abs_world (fst (cstep F c o))).
-Proof. exists ftag, w_text, (OAppend 0%N [SStr 2%N [120%N]]). exact refuted_overwrite. Qed.
-Print Assumptions C01_step_refuted_overwrite.
+(* finding 29 is repaired (commit 53035ac): the former witness now refines the plain edit, no text is lost *)
+Example C01_repaired_overwrite :
+  cwf w_text /\ step_ok ftag w_text (OAppend 0%N [SStr 2%N [120%N]]) = true /\
+  enc_world (fst (astep ftag (abs_world w_text) (OAppend 0%N [SStr 2%N [120%N]])))
+  = enc_world (abs_world (fst (cstep ftag w_text (OAppend 0%N [SStr 2%N [120%N]])))) /\
+  world_texts (abs_world (fst (cstep ftag w_text (OAppend 0%N [SStr 2%N [120%N]])))) = [(2, [120]); (1, [116; 101; 120; 116])]%N.
+Proof. exact repaired_overwrite. Qed.
 
 (* finding 18: the specification script, which follows the code, leaves the tree unchanged and reports success *)
 Theorem C01_setitem_childless_refuted : exists w p i s,
